@@ -18,7 +18,7 @@ RULE = ("histories of 5-25 calls on one proxy (normal, raising, oneway, batch, r
 ASSUMPTIONS = ["no verdict depends on a reply being fast: a slow 'deliver' only turns a success into an allowed communication error",
                "replaying a reply from exactly 65536 calls earlier is outside the statement and not generated",
                "server-side execution counts are read after the server has handled every forwarded request (5 s watchdog, expiry = inconclusive)"]
-REQUIRED_REACH = ["calls_own_reply", "calls_comm_error", "faults_applied", "oneway_calls", "recovered_after_faults", "exactly_once_tokens", "retries_observed", "seq_wraps"]
+REQUIRED_REACH = ["recovered_after_daemon_restart", "calls_own_reply", "calls_comm_error", "faults_applied", "oneway_calls", "recovered_after_faults", "exactly_once_tokens", "retries_observed", "seq_wraps"]
 SHARD_TIMEOUT = {"quick": 240, "thorough": 3000}
 KINDS = ["echo", "echo", "echo", "boom", "pyroboom", "oneway", "batch", "attr", "stream", "batchow", "batchmix", "onewaybad"]
 
@@ -385,6 +385,107 @@ def run_history(fx, slog, rl, rec, r, retries, ncalls, script, sername, hh):
         rec.count("exactly_once_tokens")
 
 
+def restart_phase(P, servertype, retries, sername, rec, r):
+    """The transport fault of a name-server topology: the served daemon goes away and comes back somewhere else (another port, another
+    generated object id) and registers its logical name again. A proxy made from the logical uri (PYRONAME, PYROMETA) or from the direct
+    uri of the first incarnation may lose the call that hits the restart (a communication error, never somebody else's reply); for the
+    logical proxies the transport is healthy again as soon as the name is registered again, so the calls after the failed one are served -
+    by the new incarnation."""
+    import Pyro5.nameserver as N
+    P.config.SERVERTYPE = servertype
+    P.config.POLLTIMEOUT = 0.5
+    P.config.COMMTIMEOUT = 0.0
+    nsd = N.NameServerDaemon(host="127.0.0.1", port=0)
+    threads = [threading.Thread(target=nsd.requestLoop, daemon=True)]
+    threads[0].start()
+    nsloc = nsd.locationStr
+    daemons = []
+
+    def incarnation(k):
+        @P.server.expose
+        class Svc(object):
+            def echo(self, token):
+                return [k, token]
+        d = P.server.Daemon(host="127.0.0.1", port=0)
+        uri = d.register(Svc())           # (generated object id: different in every incarnation)
+        nsd.nameserver.register("c03.restarting", uri, safe=False, metadata={"c03-restart"})
+        t = threading.Thread(target=d.requestLoop, daemon=True)
+        t.start()
+        daemons.append((d, t))
+        return d
+    proxies = {}
+    try:
+        d = incarnation(0)
+        for kind, uri in (("PYRONAME", "PYRONAME:c03.restarting@" + nsloc), ("PYROMETA", "PYROMETA:c03-restart@" + nsloc)):
+            p = P.client.Proxy(uri)
+            p._pyroSerializer = sername
+            p._pyroMaxRetries = retries
+            p._pyroTimeout = 10.0
+            proxies[kind] = p
+        tok = [0]
+
+        def call(kind):
+            tok[0] += 1
+            t = "%s-%d" % (kind, tok[0])
+            try:
+                return ("ok", proxies[kind].echo(t), t)
+            except P.errors.CommunicationError as x:
+                return ("comm", repr(x), t)
+            except Exception as x:
+                return ("other", repr(x), t)
+        for k in range(1, 4):
+            pay = {"restart": True, "servertype": servertype, "retries": retries, "serializer": sername}
+            for kind in proxies:
+                rec.case(("restart", servertype, retries, sername, kind, k), nontrivial=True)
+                res = call(kind)
+                if res[0] != "ok" or res[1] != [k - 1, res[2]]:
+                    rec.violation("not-own-reply", "restart phase: %s proxy before restart %d: call answered %r" % (kind, k, res), pay)
+                    return
+            # the daemon goes away ...
+            old, oldt = daemons[-1]
+            socks = list(old.sockets)
+            pool = getattr(old.transportServer, "pool", None)
+            if pool is not None:
+                socks += [w.job.csock for w in list(pool.busy) if getattr(getattr(w, "job", None), "csock", None) is not None]
+            old.shutdown()
+            oldt.join(10)
+            old.close()
+            for sk in socks:          # (the process is gone: so are its connections)
+                try:
+                    getattr(sk, "sock", sk).shutdown(2)
+                except Exception:
+                    pass
+            # ... and comes back somewhere else
+            incarnation(k)
+            for kind in proxies:
+                outcomes = [call(kind) for _ in range(4)]
+                for o in outcomes:
+                    if o[0] == "other" or (o[0] == "ok" and o[1] != [k, o[2]]):
+                        rec.violation("not-own-reply", "restart phase: %s proxy after restart %d: call %r answered %r (the incarnation serving now is %d)" % (kind, k, o[2], o[1], k), pay)
+                        return
+                # the first call may be the one that hits the dead connection; with the name registered again the transport is healthy
+                if any(o[0] != "ok" for o in outcomes[1:]):
+                    rec.violation("proxy-not-recovered-after-restart", "%s proxy (retries=%d): the served daemon was restarted at another location and its name registered again; "
+                                  "the calls made afterwards on the same proxy ended %r (a fresh proxy for the same uri is served)" % (
+                                      kind, retries, [(o[0], o[1]) for o in outcomes]), pay)
+                    return
+                rec.count("recovered_after_daemon_restart")
+    finally:
+        for p in proxies.values():
+            try:
+                p._pyroRelease()
+            except Exception:
+                pass
+        for d, t in daemons:
+            try:
+                d.shutdown()
+                d.close()
+            except Exception:
+                pass
+        nsd.shutdown()
+        nsd.close()
+
+
 def plan(tier, seed):
     shards = []
     n = 12 if tier == "quick" else 80
@@ -423,10 +524,14 @@ def run_shard(shard, rec):
     finally:
         rl.close()
         fx.stop()
+    restart_phase(P, shard["servertype"], shard["retries"], shard["serializer"], rec, r)
 
 
 def replay(payload, rec):
     P = fixture.pyro()
+    if payload.get("restart"):
+        restart_phase(P, payload["servertype"], payload["retries"], payload["serializer"], rec, gen.rng(0, "replay"))
+        return
     fx, slog = make_env(P, payload["servertype"])
     rl = relay.Relay(fx.location)
     try:
